@@ -240,4 +240,55 @@ theorem runUntilTime_transparent (body : σ → Resume → Burst ℚ σ) (fuel n
       cases hm
       simpa using hlt'
 
+/-- **after `run(until=t)` has returned, every continuation is the uninterrupted run with renamed ids**: `j + 1`
+further normal steps of the uninterrupted run are `j + 1` normal steps from the returned state, to the corresponding
+state (the first step overwrites the clock, the only field in which the returned state differs from `T false sk`) -/
+theorem after_split_lockstep (body : σ → Resume → Burst ℚ σ) (hB : BodySim c.ρ c.rσ body) (fuel : Nat) (j : Nat)
+    (sk sj : KState ℚ σ) (hi : c.Inv sk) (hf : c.FuelAlong body fuel sk) (h : stepN body fuel (j + 1) sk = .ok sj) :
+    stepN body fuel (j + 1) (c.afterSentinel sk) = .ok (c.T false sj) := by
+  have := c.stepN_T_false body hB fuel (j + 1) sk sj hi hf h
+  rw [stepN_succ] at this ⊢
+  exact this
+
+/-! ## discharging the fuel hypothesis when no `Condition._build_value` is pending -/
+
+def notBuild : Cb → Bool
+  | .build _ => false
+  | _ => true
+
+theorem loopFuelOK_of_noBuild (body : σ → Resume → Burst ℚ σ) (fuel : Nat) (e : EvId) (cbs : List Cb) (l : LoopSt ℚ σ)
+    (h : cbs.all notBuild = true) : c.loopFuelOK body fuel e cbs l := by
+  induction cbs generalizing l with
+  | nil => trivial
+  | cons cb cs ih =>
+    simp only [List.all_cons, Bool.and_eq_true] at h
+    refine ⟨?_, ih _ h.2⟩
+    cases cb <;> first | trivial | (simp [notBuild] at h)
+
+/-- a decidable sufficient condition for the fuel hypothesis of one step: the event about to be processed carries no
+`_build_value` callback -/
+def noBuildNext (s : KState ℚ σ) : Bool :=
+  match popMin s.agenda with
+  | none => true
+  | some (m, _) =>
+    match (s.ev m.ev).cbs with
+    | none => true
+    | some cbs => cbs.all notBuild
+
+theorem stepFuelOK_of_noBuild (body : σ → Resume → Burst ℚ σ) (fuel : Nat) (s : KState ℚ σ) (h : noBuildNext s = true) :
+    c.stepFuelOK body fuel s := by
+  unfold stepFuelOK
+  unfold noBuildNext at h
+  cases hp : popMin s.agenda with
+  | none => trivial
+  | some mr =>
+    obtain ⟨m, rest⟩ := mr
+    rw [hp] at h
+    simp only at h ⊢
+    cases hc : (s.ev m.ev).cbs with
+    | none => trivial
+    | some cbs =>
+      rw [hc] at h
+      exact c.loopFuelOK_of_noBuild body fuel m.ev cbs _ h
+
 end SplitCfg
